@@ -6,12 +6,14 @@ use serde_json::{json, Value};
 use vibesql_types::SqlValue;
 
 pub const SMALL: i64 = 1 << 30;
+/// set by --exact-floats (C18/C19)
+pub static EXACT_FLOATS: std::sync::atomic::AtomicBool = std::sync::atomic::AtomicBool::new(false);
 
 pub fn jnull() -> Value {
     json!({"t":"n","n":0,"s":"","d":1})
 }
 pub fn jint(n: i64) -> Value {
-    if n.abs() < SMALL {
+    if n > -SMALL && n < SMALL {
         json!({"t":"i","n":n,"s":"","d":1})
     } else {
         json!({"t":"x","n":0,"s":format!("int:{}", n),"d":1})
@@ -24,9 +26,16 @@ pub fn jbool(b: bool) -> Value {
     json!({"t":"b","n": if b {1} else {0},"s":"","d":1})
 }
 pub fn jfloat(f: f64) -> Value {
-    if f.is_finite() && f == f.trunc() && f.abs() < SMALL as f64 {
-        // -0.0 is integral zero by value
+    if f == 0.0 && f.is_sign_negative() {
+        // kept apart from 0: persistence must round-trip the sign (C18); compares equal to 0 by value elsewhere
+        json!({"t":"x","n":0,"s":"float:-0","d":1})
+    } else if f.is_finite() && f == f.trunc() && f.abs() < 9007199254740992.0 {
+        // an integral float that an i64 holds exactly is that integer by value (index keys keep numbers as f64)
         jint(f as i64)
+    } else if EXACT_FLOATS.load(std::sync::atomic::Ordering::Relaxed) {
+        // persistence checks compare values exactly: a non-integral float is an opaque token carrying its shortest
+        // round-trip representation
+        json!({"t":"x","n":0,"s":format!("float:{:?}", f),"d":1})
     } else if f.is_finite() && f.abs() < 2000.0 {
         let scaled = (f * 1_000_000.0).round() as i64;
         json!({"t":"i","n":scaled,"s":"","d":1000000})
